@@ -190,7 +190,7 @@ def run(ctx: Ctx) -> None:
         if any(v["regime"] not in known for v in ctx.violations):
             n //= ctx.boost
         else:
-            n = min(n, 15000)
+            n = min(n, 12000)
     for i in range(n):
         rng = ctx.subrng("case", i)
         case = g.gen_case(rng)
